@@ -143,7 +143,7 @@ class Gen(object):
         fn.lines = lines
         lines.append("    F = W.frame(%r)" % fn.name)
         n0 = len(lines)
-        self.block(fn, 1, depth=0, inloop=False, nstmts=1 + self.t.choose(3), top=True)
+        self.block(fn, 1, depth=0, inloop=False, nstmts=1 + self.t.choose(4 if fn.index == 0 else 3), top=True)
         if fn.kind in ("gen", "gbcoro", "agen") and not any("yield" in l for l in lines[n0:]):
             # make sure it is a generator function of the intended kind
             if fn.kind == "agen":
@@ -169,7 +169,7 @@ class Gen(object):
         t = self.t
         deep = depth >= self.cfg.max_depth
         # 0 trap/probe (simple), 1 with, 2 try, 3 if, 4 loop, 5 leave, 6 call, 7 assign/pass, 8 match
-        w = [4, 5 if not deep else 0, 2 if not deep else 0, 2 if not deep else 0, 2 if not deep else 0, 2, 2, 1, 1 if not deep else 0]
+        w = [5, 6 if not deep else 0, 2 if not deep else 0, 2 if not deep else 0, 2 if not deep else 0, 1 if depth > 0 else 0, 2, 1, 1 if not deep else 0]
         if not self.on("try"):
             w[2] = 0
         if not self.on("if"):
